@@ -12,31 +12,55 @@ RULE = ('case = (format, table, names, backend[, separator/words | description])
         'temp file, json, pandas), a many-valued table with its pattern-structure classes (json), a context + miner '
         '(concept to_dict/json), or a context whose lattice is written and read (json); exhaustive over all tables up '
         'to the tier scope x ordered distinct names from a pool of admissible names (leading/trailing blanks, the '
-        'other separators, X and .) x 3 backends, then seeded random larger tables/names; non-trivial = mixed table '
-        '(formal) / any many-valued or concept case; distinct = distinct case dict')
+        'other separators, X and .) x 3 backends, then seeded random larger tables/names; directed streams: (H3/H6) '
+        'extreme and degenerate values in every position (interval borders -inf/-1/-0.0/2.5/inf in all 25 ordered pairs '
+        '— proper, improper, points — for both interval classes, the largest / smallest doubles, 2**53+1, empty sets, '
+        'big integers) and token-like strings (null, Infinity, NaN, true, the empty-set sign, the library\'s own separators, '
+        'quotes, backslashes, control characters, non-BMP) as set members, object / attribute names and descriptions; '
+        '(H1/H2/H4/H5) histories on ONE object: use (every writer, hash, hash_fixed, data, ==, lattice, ...), mutate through '
+        'one public route (own setters, setters / in-place edits of contained pattern structures and of the bintable, item '
+        'assignment on returned name lists, replacing a pattern structure incl. by one of the other interval class, edits of '
+        'the table handed out by MVContext.data, add/remove/del on lattices with and without cache filling, concept '
+        'measures; hash()-preserving -1<->-2 and adler32-preserving edits of cells, names and boolean tables), write + read '
+        'back, judged against the CURRENT content tracked by the harness itself; earlier read-back objects must keep their '
+        'content and the source must not change when a read-back object is edited; '
+        'non-trivial = mixed table (formal) / any many-valued or concept case; distinct = distinct case dict')
 EXHAUSTIVE = {
     'quick': 'cxt,json,pandas: all tables n,m<=2 x all ordered distinct object/attribute names from a 6-name pool x 3 backends; '
              '(pandas 2x2: numpy backend only); csv: same for each separator in , ; TAB SPACE with a 5-name pool (incl. the empty '
              'name and the other separators) free of that separator; '
              'lattices+concepts (every miner): all tables n,m<=3 x 3 backends (lattice when >=3 concepts); '
-             'many-valued: all class pairs (4 classes, m<=2) x small value grids, n<=2',
-    'thorough': 'quick scope + tables n,m<=3 with a 4-name pool for the text formats; lattices of all tables n*m<=12 (n,m<=4)'}
+             'many-valued: all class pairs (4 classes, m<=2) x small value grids, n<=2; interval cells: all 25 ordered border '
+             'pairs + 5 points over {-inf,-1,-0.0,2.5,inf} x 2 interval classes (context, pattern concept, lattice); '
+             'histories: FormalContext 11 uses x 8 routes x 4 formats x 3 backends (+ all format pairs written before/after); '
+             'MVContext 4 column classes x 11 uses x 13 routes',
+    'thorough': 'quick scope + tables n,m<=3 with a 4-name pool for the text formats; lattices of all tables n*m<=12 (n,m<=4); '
+                'lattice histories over every mixed table n,m<=3'}
 EXPLANATION = ('the writer text of the implementation is compared byte-for-byte with the model writer, the model reader '
                'is run on both texts and compared with the implementation reader; the property oracle is: read-back == '
                'original under the library == AND field-wise.  Theorems Fca.C07.* prove model read(write K) = K for all '
                'admissible K: text level for cxt/csv (any separator string), tree level for the json formats of formal '
                'and many-valued contexts, formal and pattern concepts and their lattices (nested value texts under an '
-               'explicit loads(dumps j)=j hypothesis).')
+               'explicit loads(dumps j)=j hypothesis, which is PROVED for interval cells with any JSON float literals — '
+               '±Infinity included — in either position).  In a history every `check` is judged like a one-shot case whose '
+               'original is the current content (mv_json_roundtrip_history / context_roundtrip_history: the writer depends '
+               'on the current content only).')
 ASSUMPTIONS = ['object/attribute names pairwise distinct; tables with n,m >= 1',
                'cxt names: non-empty, no newline; csv fields (names, word_true, word_false): no character of the separator, '
                'no \\n, no \\r (the csv reader only takes a path and text-mode files translate \\r); the separator is any '
                'non-empty string without \\n/\\r; word_true != word_false',
-               'SetPS values are sets of ints or sets of strings (mixed sets cannot be sorted by the writer)',
-               'floats are compared through repr(); -0.0, nan are not generated',
+               'SetPS values are sets of ints or sets of strings (mixed sets cannot be sorted by the writer; sets of floats '
+               'are not modelled)',
+               'floats are compared through the literal json.dumps writes (repr; Infinity / -Infinity); nan is not generated '
+               '(nan != nan)',
+               'in-place assignments into ps.data use values in the stored form (float pairs, sets, bools)',
+               'an MVContext whose attribute_names were reassigned is outside the scope (ps.name is read-only and stays '
+               'behind; recorded in the outside-scope stream)',
                'lattices have >= 3 concepts (writer precondition); children_dict of the original lattice is the cover '
-               'relation of extent inclusion (C12) ']
+               'relation of extent inclusion (C12); after add/remove/del the lattice\'s own children_dict/top/bottom are judged '
+               'against the cover relation recomputed from its concepts']
 TRUSTED = ['json.dumps/json.loads as mutually inverse on JSON trees (the model has its own dumps/loads, compared with '
-           'CPython on every case, but no theorem about them)',
+           'CPython on every case; proved inverse only on interval value trees)',
            'text-mode file I/O = universal-newline translation; pandas DataFrame construction/.values.tolist()',
            'POSet internals behind ConceptLattice(concepts) are modelled by their specification '
            '(descendants/ancestors/children by definition; see C09/C12)',
@@ -124,6 +148,459 @@ MINERS_F = ['close_by_one', 'close_by_one_objectwise', 'close_by_one_objectwise_
 MINERS_MV = ['close_by_one', 'close_by_one_objectwise', 'from_objects']
 
 
+# ================================================================================================
+# classes H3 / H6: extreme and degenerate values in every position, names that look like tokens
+# ================================================================================================
+INTERVAL_T = ('IntervalPS', 'IntervalNumpyPS')
+# numbers travel inside cases as JSON numbers, or as strings where JSON cannot carry them exactly
+EXT5 = ['-inf', -1, '-0.0', 2.5, 'inf']
+EXTREMES = ['inf', '-inf', '-0.0', 0, 0.0, 1, 1.0, -1, -2, -1.0, -2.0, '1.7976931348623157e+308', '-1.7976931348623157e+308',
+            '5e-324', '-5e-324', '2.2250738585072014e-308', 1e16, 1e-7, 1e22, 1e21, 123456789.12345679, 0.1,
+            0.30000000000000004, 9007199254740993, -9007199254740993, 2 ** 63, 131, 212]
+TOKENS = ['null', 'Infinity', '-Infinity', 'NaN', 'true', 'false', 'None', 'True', 'False', '∅', 'a, b', 'a', 'b', ', ', ': ',
+          'x: y', '[]', '{}', '[1.0, 2.0]', '"', '\\', '\\u0041', '\\n', '0', '1', '-1', '1.0', 'inf', 'nan', ' ', '', 'not a',
+          'a_from', 'a_to', 'PTypes', 'Data', 'X', '.', 'BOTTOM', 'BOTTOM_PLACEHOLDER', '\x00', '\x7f', ' ', '\U0001F600',
+          'é', '\t', 'a;b', "'", '(1.0, 2.0)', 'm: ∅']
+INT_ATOMS = [0, 1, -1, -2, 2 ** 31, 2 ** 63, -2 ** 63 - 1, 2 ** 64, 10 ** 30]
+
+
+def _mv(stream, fmt, objs, attrs, types, data, descr=None, **kw):
+    return dict(stream=stream, fmt=fmt, objs=objs, attrs=attrs, types=types, data=data, order=list(range(len(types))),
+                descr=descr, permuted=False, **kw)
+
+
+def gen_extremes(tier, rng):
+    # (1) every ordered pair of EXT5 as (left, right) — proper, improper and point intervals, infinities on either
+    #     border — and every single number, for both interval classes: alone (1 object) and five at a time
+    for T in INTERVAL_T:
+        cells = [[a, b] for a in EXT5 for b in EXT5] + list(EXT5)
+        for v in cells:
+            yield _mv('mv-extremes', 'mv', ['g'], ['m'], [T], [[v]])
+            yield _mv('mv-extremes', 'pc', ['g'], ['m'], [T], [[v]], miner='from_objects')
+        for k in range(0, len(cells), 5):
+            chunk = cells[k:k + 5]
+            objs = ['g%d' % i for i in range(len(chunk))]
+            yield _mv('mv-extremes', 'mv', objs, ['m'], [T], [[v] for v in chunk])
+            yield _mv('mv-extremes', 'mvlat', objs, ['m'], [T], [[v] for v in chunk])
+            yield _mv('mv-extremes', 'pc', objs, ['m'], [T], [[v] for v in chunk], miner='close_by_one')
+    # (2) the longer list of extremes on both borders, several columns
+    for _ in range(24 if tier == 'quick' else 200):
+        n, m = rng.randint(1, 4), rng.randint(1, 3)
+        types = [rng.choice(INTERVAL_T) for _ in range(m)]
+        data = [[rng.choice(EXTREMES) if rng.random() < 0.4 else [rng.choice(EXTREMES), rng.choice(EXTREMES)] for _ in range(m)]
+                for _ in range(n)]
+        objs, attrs = rng.sample(TOKENS, n), rng.sample(TOKENS, m)
+        for fmt, kw in (('mv', {}), ('mvlat', {}), ('pc', dict(miner=rng.choice(MINERS_MV)))):
+            yield _mv('mv-extremes-random', fmt, objs, attrs, types, data, descr=rng.choice([None, 'null', '']), **kw)
+    # (3) token-like strings as set members, as object / attribute / pattern-structure names and as description;
+    #     empty sets; extreme integers
+    n = len(TOKENS)
+    yield _mv('mv-tokens', 'mv', list(TOKENS), ['∅', 'null', 'true'], ['SetPS', 'SetPS', 'AttributePS'],
+              [[{'set': [t]}, {'set': []}, i % 2 == 0] for i, t in enumerate(TOKENS)], descr='null')
+    yield _mv('mv-tokens', 'mv', ['g%d' % i for i in range(len(INT_ATOMS))], ['a, b', 'a'], ['SetPS', 'SetPS'],
+              [[{'set': [x]}, {'set': sorted(INT_ATOMS[:i])}] for i, x in enumerate(INT_ATOMS)], descr='Infinity')
+    for _ in range(16 if tier == 'quick' else 120):
+        n, m = rng.randint(1, 4), rng.randint(1, 3)
+        types = [rng.choice(PTYPES) for _ in range(m)]
+        kinds = [rng.choice(['tok', 'int']) for _ in range(m)]
+
+        def cell(t, k):
+            if t in INTERVAL_T:
+                return rng.choice(EXTREMES)
+            if t == 'SetPS':
+                pool = TOKENS if k == 'tok' else INT_ATOMS
+                return {'set': sorted(rng.sample(pool, rng.randint(0, 3)))}
+            return rng.random() < 0.5
+        data = [[cell(t, k) for t, k in zip(types, kinds)] for _ in range(n)]
+        objs, attrs = rng.sample(TOKENS, n), rng.sample(TOKENS, m)
+        for fmt, kw in (('mv', {}), ('mvlat', {}), ('pc', dict(miner=rng.choice(MINERS_MV)))):
+            yield _mv('mv-tokens', fmt, objs, attrs, types, data, descr=rng.choice([None] + TOKENS), **kw)
+    # (4) formal contexts whose names are tokens (json / pandas: any string; cxt: non-empty, no newline; csv: the words
+    #     True / False themselves as names)
+    text_tokens = [t for t in TOKENS if t and '\n' not in t]
+    for _ in range(16 if tier == 'quick' else 120):
+        rows = G.random_table(rng, 4, 4)
+        n, m = len(rows), len(rows[0])
+        be = rng.choice(FMT_BACKENDS)
+        yield from _ctx_cases('ctx-tokens', rows, rng.sample(TOKENS, n), rng.sample(TOKENS, m), ('json', 'pandas'),
+                              descr=rng.choice([None] + TOKENS), backends=(be,))
+        yield from _ctx_cases('ctx-tokens', rows, rng.sample(text_tokens, n), rng.sample(text_tokens, m), ('cxt',), backends=(be,))
+        sep = rng.choice(CSV_SEPS)
+        pool = [t for t in TOKENS if not any(ch in t for ch in sep + '\n\r')]
+        yield from _ctx_cases('ctx-tokens', rows, rng.sample(pool, n), rng.sample(pool, m), ('csv',),
+                              csv_kw=dict(sep=sep, wt='True', wf='False'), backends=(be,))
+    # concepts / lattices of contexts named by tokens (names go into Ext.Names / Int.Names)
+    for _ in range(6 if tier == 'quick' else 40):
+        rows = G.random_table(rng, 4, 4)
+        n, m = len(rows), len(rows[0])
+        be = rng.choice(FMT_BACKENDS)
+        objs, attrs = rng.sample(TOKENS, n), rng.sample(TOKENS, m)
+        yield dict(stream='ctx-tokens', fmt='lat', be=be, rows=rows, objs=objs, attrs=attrs, mono=False)
+        yield dict(stream='ctx-tokens', fmt='fc', be=be, rows=rows, objs=objs, attrs=attrs, miner=rng.choice(MINERS_F))
+
+
+# ================================================================================================
+# classes H1 / H2 / H4 / H5: histories on ONE object between two writes
+# ================================================================================================
+# A history case carries the initial content and a list of steps.  `['use', name]` calls something that may warm a
+# memo (never judged here), a mutation step changes the content through one public route, `['check', ...]` writes the
+# object, reads the text back and is judged against the CURRENT content.  The current content is tracked by the
+# harness itself (a "shadow": plain python data updated by its own rules, never read from the object), so a stale
+# getter cannot hide a stale writer.
+CTX_USES = ['write_cxt', 'write_json', 'write_csv', 'to_pandas', 'hash', 'hash_fixed', 'to_list', 'eq', 'T', 'derive', 'repr']
+CTX_ROUTES = ['objs', 'attrs', 'descr', 'table', 'table_native', 'h4_rows', 'h4_name_obj', 'h4_name_attr']
+CTX_FMTS = ['cxt', 'json', 'csv', 'pandas']
+MV_USES = ['write_json', 'hash_fixed', 'hash', 'data', 'eq', 'from_objects', 'intention', 'extension', 'lattice', 'to_numeric',
+           'getitem']
+MV_ROUTES = ['ps_data', 'ps_cell', 'ps_list', 'ps_item', 'ps_item_class', 'objs', 'obj_item', 'descr', 'alias_data', 'h4_pyhash_set',
+             'h4_pyhash_cell', 'h4_adler_cell', 'h4_adler_name']
+LAT_USES = ['write_json', 'children_dict', 'parents_dict', 'descendants_dict', 'ancestors_dict', 'top_bottom', 'eq', 'T',
+            'chains', 'measures']
+
+
+def _other_names(rng, names, forbid=''):
+    names = list(names)
+    k = rng.randrange(3)
+    if k == 0 and len(names) > 1:
+        return names[1:] + names[:1]
+    if k == 1:
+        out = [x + 'x' for x in names]
+        return out
+    return rand_names(rng, len(names), forbid)
+
+
+def _other_table(rng, rows):
+    n, m = len(rows), len(rows[0])
+    while True:
+        k = rng.randrange(3)
+        if k == 0:
+            t = [[1 - v for v in r] for r in rows]
+        elif k == 1:
+            t = [list(r) for r in rows]
+            i, j = rng.randrange(n), rng.randrange(m)
+            t[i][j] = 1 - t[i][j]
+        else:
+            t = [[int(rng.random() < 0.5) for _ in range(m)] for _ in range(n)]
+        if t != [list(r) for r in rows]:
+            return t
+
+
+def ctx_route_step(rng, route, sh, forbid):
+    """one mutation step of a FormalContext history, built from the current shadow `sh`"""
+    if route == 'objs':
+        return ['objs', _other_names(rng, sh['objs'], forbid)]
+    if route == 'attrs':
+        return ['attrs', _other_names(rng, sh['attrs'], forbid)]
+    if route == 'descr':
+        return ['descr', rng.choice([d for d in (None, 'd', 'other "text"', '') if d != sh['descr']])]
+    if route in ('table', 'table_native'):
+        return ['table', _other_table(rng, sh['rows']), route == 'table_native', False]
+    if route == 'h4_rows':
+        t = G.adler_collide_rows(tuple(sh['objs']), tuple(sh['attrs']), sh['rows'])
+        return ['table', t or _other_table(rng, sh['rows']), False, t is not None]
+    k = 'objs' if route == 'h4_name_obj' else 'attrs'
+    names = list(sh[k])
+    for i, nm in enumerate(names):
+        nm2 = G.adler_collide_name(nm)
+        if nm2 is not None and nm2 not in names:
+            names[i] = nm2
+            return [k, names, True]
+    return [k, _other_names(rng, sh[k], forbid)]
+
+
+def ctx_shadow_apply(sh, st):
+    sh = dict(sh)
+    if st[0] in ('objs', 'attrs', 'descr'):
+        sh[st[0]] = st[1]
+    elif st[0] == 'table':
+        sh['rows'] = [list(r) for r in st[1]]
+    return sh
+
+
+def _mv_col_values(rng, t, n, cur=None):
+    """a fresh column (case encoding) for class `t`, different from `cur`"""
+    while True:
+        col = [mv_value(rng, t, 'str') for _ in range(n)]
+        if t in INTERVAL_T and rng.random() < 0.3:
+            col[rng.randrange(n)] = rng.choice(EXTREMES) if rng.random() < 0.5 else [rng.choice(EXTREMES), rng.choice(EXTREMES)]
+        if cur is None or col != cur:
+            return col
+
+
+def _adler_twin(v):
+    """a cell (case encoding) whose `str()` differs from that of `v` by an adler32-neutral edit; None if there is none"""
+    def twin_num(x):
+        if isinstance(x, (int, float)) and not isinstance(x, bool) and abs(x) < 1e15 and float(x) == int(x):
+            s2 = G.adler_collide_name(str(int(x)))
+            if s2 is not None and s2.isdigit():
+                return type(x)(int(s2))
+        return None
+    if isinstance(v, dict) and len(v['set']) == 1 and isinstance(v['set'][0], str):
+        s2 = G.adler_collide_name(v['set'][0])
+        return {'set': [s2]} if s2 is not None else None
+    if isinstance(v, list):
+        a, b = twin_num(v[0]), twin_num(v[1])
+        return [a, b] if a is not None and b is not None else None
+    if isinstance(v, bool):
+        return None
+    return twin_num(v)
+
+
+def _pyhash_twin(v):
+    """-1 <-> -2 on every border (same CPython hash, other content)"""
+    def tw(x):
+        return G.pyhash_collide_value(x)
+    if isinstance(v, list):
+        a, b = tw(v[0]), tw(v[1])
+        return [a, b] if a is not None and b is not None else None
+    if isinstance(v, (dict, bool, str)):
+        return None
+    return tw(v)
+
+
+def mv_route_step(rng, route, sh, col=None):
+    """one mutation step of an MVContext history; `sh` = dict(objs, attrs, descr, types, cols) with `cols` in case encoding;
+    `col` fixes the column the step works on"""
+    m, n = len(sh['types']), len(sh['objs'])
+    j = rng.randrange(m) if col is None else col
+    if route.startswith('h4_') and route != 'h4_adler_name':
+        twin = _pyhash_twin if 'pyhash' in route else _adler_twin
+        cands = [(jj, ii) for jj in range(m) for ii in range(n) if twin(sh['cols'][jj][ii]) is not None]
+        if col is not None and any(jj == col for jj, _ in cands):
+            cands = [x for x in cands if x[0] == col]
+        if cands:
+            jj, ii = cands[rng.randrange(len(cands))]
+            v2 = twin(sh['cols'][jj][ii])
+            if route == 'h4_pyhash_cell':
+                return ['ps_cell', jj, ii, v2, route]
+            col = list(sh['cols'][jj])
+            col[ii] = v2
+            return ['ps_data', jj, col, route]
+        route = 'ps_data'
+    if route == 'h4_adler_name':
+        names = list(sh['objs'])
+        for i, nm in enumerate(names):
+            nm2 = G.adler_collide_name(nm)
+            if nm2 is not None and nm2 not in names:
+                names[i] = nm2
+                return ['objs', names, route]
+        route = 'objs'
+    if route == 'ps_item_class':       # the structure is replaced by one of the OTHER interval class (same or new column)
+        if sh['types'][j] not in INTERVAL_T:
+            cands = [jj for jj in range(m) if sh['types'][jj] in INTERVAL_T]
+            if not cands or col is not None:
+                route = 'ps_item'
+            else:
+                j = rng.choice(cands)
+        if route == 'ps_item_class':
+            other = 'IntervalNumpyPS' if sh['types'][j] == 'IntervalPS' else 'IntervalPS'
+            return ['ps_item_class', j, other, list(sh['cols'][j]) if rng.random() < 0.5 else _mv_col_values(rng, other, n, sh['cols'][j])]
+    if route in ('ps_data', 'ps_item'):
+        return [route, j, _mv_col_values(rng, sh['types'][j], n, sh['cols'][j])]
+    if route == 'ps_cell':
+        i = rng.randrange(n)
+        while True:
+            v = mv_value(rng, sh['types'][j], 'str')
+            if v != sh['cols'][j][i]:
+                return ['ps_cell', j, i, v]
+    if route == 'ps_list':
+        cols = [list(c) for c in sh['cols']]
+        cols[j] = _mv_col_values(rng, sh['types'][j], n, sh['cols'][j])
+        return ['ps_list', cols]
+    if route == 'objs':
+        return ['objs', _other_names(rng, sh['objs'])]
+    if route == 'obj_item':
+        i = rng.randrange(n)
+        return ['obj_item', i, sh['objs'][i] + '*']
+    if route == 'descr':
+        return ['descr', rng.choice([d for d in (None, 'd', 'null', '') if d != sh['descr']])]
+    if route == 'alias_data':
+        i = rng.randrange(n)
+        while True:
+            v = mv_value(rng, sh['types'][j], 'str')
+            if v != sh['cols'][j][i]:
+                return ['alias_data', i, j, v]
+    raise ValueError(route)
+
+
+def mv_shadow_apply(sh, st):
+    sh = dict(sh, cols=[list(c) for c in sh['cols']])
+    if st[0] in ('ps_data', 'ps_item'):
+        sh['cols'][st[1]] = list(st[2])
+    elif st[0] == 'ps_item_class':
+        sh['types'] = list(sh['types'])
+        sh['types'][st[1]] = st[2]
+        sh['cols'][st[1]] = list(st[3])
+    elif st[0] == 'ps_cell':
+        sh['cols'][st[1]][st[2]] = st[3]
+    elif st[0] == 'ps_list':
+        sh['cols'] = [list(c) for c in st[1]]
+    elif st[0] == 'objs':
+        sh['objs'] = list(st[1])
+    elif st[0] == 'obj_item':
+        sh['objs'] = list(sh['objs'])
+        sh['objs'][st[1]] = st[2]
+    elif st[0] == 'descr':
+        sh['descr'] = st[1]
+    return sh
+
+
+HCTX_BASES = [
+    dict(rows=[[0, 1, 1, 0], [1, 1, 0, 0]], objs=['bdb', ' g2'], attrs=['a', 'mdm ', 'X.', 'd;'], descr='d'),
+    dict(rows=[[1, 0], [0, 0], [1, 1]], objs=['g 0', 'xyz', 'o'], attrs=['not a', 'pqp'], descr=None),
+]
+HMV_BASE_COLS = {
+    'IntervalPS': [-1, [131, 212], 2.5], 'IntervalNumpyPS': [[-2, -1], 131, [0, 1]],
+    'SetPS': [{'set': ['bdb']}, {'set': []}, {'set': ['a', 'b']}], 'AttributePS': [True, False, True]}
+
+
+def _hmv_base(T, other=None):
+    other = other or ('SetPS' if T != 'SetPS' else 'IntervalPS')
+    return dict(objs=['bdb', 'g 1', 'o'], attrs=['m0', 'm 1'], types=[T, other], descr=None,
+                cols=[list(HMV_BASE_COLS[T]), list(HMV_BASE_COLS[other])])
+
+
+def _hmv_case(stream, base, steps):
+    n = len(base['objs'])
+    return dict(stream=stream, fmt='hmv', objs=list(base['objs']), attrs=list(base['attrs']), types=list(base['types']),
+                data=[[c[i] for c in base['cols']] for i in range(n)], order=list(range(len(base['types']))),
+                descr=base['descr'], steps=steps)
+
+
+def gen_histories(tier, rng):
+    quick = tier == 'quick'
+    # ---- FormalContext: every single use x every mutation route x every format written afterwards ------------------
+    for bi, base in enumerate(HCTX_BASES):
+        for be in FMT_BACKENDS:
+            for route in CTX_ROUTES:
+                st = ctx_route_step(rng, route, base, ',\n\r')
+                for fmt in CTX_FMTS:
+                    for use in CTX_USES:
+                        if bi == 1 and not (quick is False or (CTX_USES.index(use) + CTX_FMTS.index(fmt)) % 3 == 0):
+                            continue
+                        yield dict(stream='hist-ctx', fmt='hctx', be=be, steps=[['use', use], st, ['check', fmt]], **base)
+                    # written, changed, written again (each pair of formats)
+                    for fmt0 in CTX_FMTS:
+                        yield dict(stream='hist-ctx', fmt='hctx', be=be, steps=[['check', fmt0], st, ['check', fmt]], **base)
+    # ---- FormalContext: random longer histories ----------------------------------------------------------------
+    for _ in range(40 if quick else 600):
+        rows = G.random_table(rng, 5, 5)
+        n, m = len(rows), len(rows[0])
+        sh = dict(rows=rows, objs=rand_names(rng, n, ',\n\r'), attrs=rand_names(rng, m, ',\n\r'), descr=rng.choice([None, 'd']))
+        c = dict(stream='hist-ctx-random', fmt='hctx', be=rng.choice(FMT_BACKENDS), steps=[], **sh)
+        for _ph in range(rng.randint(2, 4)):
+            for u in rng.sample(CTX_USES, rng.randint(0, 3)):
+                c['steps'].append(['use', u])
+            c['steps'].append(['check', rng.choice(CTX_FMTS)])
+            for r in rng.sample(CTX_ROUTES, rng.randint(1, 2)):
+                st = ctx_route_step(rng, r, sh, ',\n\r')
+                sh = ctx_shadow_apply(sh, st)
+                c['steps'].append(st)
+        for u in rng.sample(CTX_USES, rng.randint(0, 2)):
+            c['steps'].append(['use', u])
+        c['steps'].append(['check', rng.choice(CTX_FMTS)])
+        yield c
+    # ---- MVContext: every use x every route, for each class of the mutated column --------------------------------
+    # (IntervalPS + AttributePS: every pattern structure is hashable, so hash(K) exists and -1 <-> -2 preserves it)
+    for T, other in [(t, None) for t in PTYPES] + [('IntervalPS', 'AttributePS')]:
+        base = _hmv_base(T, other)
+        for route in MV_ROUTES:
+            st = mv_route_step(random.Random(rng.random()), route, base, col=0)     # column 0 is the one of class T
+            for use in MV_USES:
+                yield _hmv_case('hist-mv', base, [['use', use], st, ['check']])
+            yield _hmv_case('hist-mv', base, [['check'], st, ['check']])
+            yield _hmv_case('hist-mv', base, [st, ['check']])
+    # ---- MVContext: random longer histories ------------------------------------------------------------------------
+    for _ in range(40 if quick else 600):
+        m, n = rng.randint(1, 3), rng.randint(1, 4)
+        types = [rng.choice(PTYPES) for _ in range(m)]
+        sh = dict(objs=rand_names(rng, n), attrs=rand_names(rng, m), types=types, descr=rng.choice([None, 'mv']),
+                  cols=[[mv_value(rng, t, 'str') for _ in range(n)] for t in types])
+        if rng.random() < 0.3:         # seeds for the hash-preserving routes
+            for j, t in enumerate(types):
+                if t in INTERVAL_T:
+                    sh['cols'][j][0] = rng.choice([-1, -2, [-1, -1], 131, [242, 242]])
+                elif t == 'SetPS':
+                    sh['cols'][j][0] = {'set': [rng.choice(['bdb', 'xyx'])]}
+        c = _hmv_case('hist-mv-random', sh, [])
+        for _ph in range(rng.randint(2, 4)):
+            for u in rng.sample(MV_USES, rng.randint(0, 3)):
+                c['steps'].append(['use', u])
+            if rng.random() < 0.7:
+                c['steps'].append(['check'])
+            for r in rng.sample(MV_ROUTES, rng.randint(1, 2)):
+                st = mv_route_step(rng, r, sh)
+                sh = mv_shadow_apply(sh, st)
+                c['steps'].append(st)
+        c['steps'].append(['check'])
+        yield c
+    # ---- outside the scope (never judged, only recorded): `K.attribute_names = ...` on an MVContext leaves the names of
+    #      the pattern structures (`ps.name`, read-only) as they were; the file stores the attribute names only, so the
+    #      context read back has OTHER pattern-structure names and `==` is False (MVOk.names excludes such contexts)
+    for T in PTYPES:
+        base = _hmv_base(T)
+        yield _hmv_case('outside-scope', base, [['check'], ['attrs_outside', ['p', 'q']], ['check']])
+    # ---- lattices: written, a concept removed / re-added (with and without cache filling) / a measure set, written again ---
+    lat_tabs = [t for i, t in enumerate(G.tables_upto(3, 3)) if len(t) >= 2 and len(t[0]) >= 2 and G.is_mixed(t)]
+    lat_tabs = lat_tabs[::7] if quick else lat_tabs
+    for ti, rows in enumerate(lat_tabs):
+        n, m = len(rows), len(rows[0])
+        objs, attrs = [f'g{i}' for i in range(n)], [' m%d' % j for j in range(m)]
+        be = FMT_BACKENDS[ti % 3]
+        for k in range(2):
+            yield dict(stream='hist-lattice', fmt='hlat', be=be, rows=rows, objs=objs, attrs=attrs, mono=False,
+                       steps=[['use', LAT_USES[(ti + k) % len(LAT_USES)]], ['check'], ['remove', k, k % 2 == 0], ['check'],
+                              ['add_back', 0, (ti + k) % 2 == 0], ['check'], ['measure', k, 'stab', 0.5], ['check']])
+    for _ in range(30 if quick else 400):
+        rows = G.random_table(rng, 5, 5, 2, 2)
+        n, m = len(rows), len(rows[0])
+        c = dict(stream='hist-lattice-random', fmt='hlat', be=rng.choice(FMT_BACKENDS), rows=rows, objs=rand_names(rng, n, '\n'),
+                 attrs=rand_names(rng, m, '\n'), mono=rng.random() < 0.2, steps=[])
+        removed = 0
+        for _ph in range(rng.randint(2, 5)):
+            for u in rng.sample(LAT_USES, rng.randint(0, 3)):
+                c['steps'].append(['use', u])
+            if rng.random() < 0.6:
+                c['steps'].append(['check'])
+            k = rng.randrange(4)
+            if k == 0 and removed:
+                c['steps'].append(['add_back', rng.randrange(8), rng.random() < 0.6])
+                removed -= 1
+            elif k == 1:
+                c['steps'].append(['measure', rng.randrange(8), rng.choice(['stab', 'Supp', 'x y', 'LStab']), rng.choice([0.5, 1, 0.25, 3])])
+            else:
+                c['steps'].append(['remove', rng.randrange(8), rng.random() < 0.5])
+                removed += 1
+        c['steps'].append(['check'])
+        yield c
+    for _ in range(12 if quick else 150):
+        m, n = rng.randint(1, 2), rng.randint(2, 4)
+        types = [rng.choice(PTYPES) for _ in range(m)]
+        base = dict(objs=rand_names(rng, n), attrs=rand_names(rng, m), types=types, descr=None,
+                    cols=[[mv_value(rng, t, 'str') for _ in range(n)] for t in types])
+        c = _hmv_case('hist-mv-lattice', base, [['use', rng.choice(LAT_USES)], ['check'], ['remove', rng.randrange(4), rng.random() < 0.5],
+                                                ['check'], ['add_back', 0, rng.random() < 0.5], ['check'],
+                                                ['measure', rng.randrange(4), 'stab', 0.5], ['check']])
+        c['fmt'] = 'hmvlat'
+        yield c
+    # ---- single concepts: written, a measure set (item assignment / whole dict), written again --------------------
+    for _ in range(12 if quick else 100):
+        rows = G.random_table(rng, 4, 4)
+        n, m = len(rows), len(rows[0])
+        yield dict(stream='hist-concept', fmt='hfc', be=rng.choice(FMT_BACKENDS), rows=rows, objs=rand_names(rng, n, '\n'),
+                   attrs=rand_names(rng, m, '\n'), miner=rng.choice(MINERS_F),
+                   steps=[['check'], ['measure', 0, rng.choice(['stab', 'x y']), rng.choice([0.5, 2])], ['check'],
+                          ['measures', {'LStab': 0.25}], ['check']])
+    for _ in range(8 if quick else 60):
+        m, n = rng.randint(1, 3), rng.randint(1, 4)
+        types = [rng.choice(PTYPES) for _ in range(m)]
+        base = dict(objs=rand_names(rng, n), attrs=rand_names(rng, m), types=types, descr=None,
+                    cols=[[mv_value(rng, t, 'str') for _ in range(n)] for t in types])
+        c = _hmv_case('hist-concept', base, [['check'], ['measure', 0, 'stab', 0.5], ['check'], ['measures', {'LStab': 0.25}], ['check']])
+        c.update(fmt='hpc', miner=rng.choice(MINERS_MV))
+        yield c
+
+
 def _sweep_stale_tempfiles(max_age_s=600):
     """a run that is cut short (pool.terminate after many failures) can leave a csv temp file behind"""
     import glob
@@ -194,6 +671,9 @@ def gen(tier, seed, boost=False):
             for n in (1, 2):
                 for _ in range(3 if tier == 'quick' else 12):
                     yield mv_case(rng, 'mv-grid', n, list(types))
+    # ---- directed: extreme / degenerate values and token-like names (H3, H6); histories (H1, H2, H4, H5) ----
+    yield from gen_extremes(tier, random.Random(seed * 1000003 + 70703))
+    yield from gen_histories(tier, random.Random(seed * 1000003 + 70701))
     # ---- seeded random larger cases ---------------------------------------------------------------------
     nrand = 150 if tier == 'quick' else 2500
     if boost:
@@ -289,7 +769,35 @@ def make_ctx(c):
 
 
 def _flt(x):
-    return repr(float(x))
+    """a float as the literal `json.dumps` writes (= `repr` for finite floats; `Infinity` / `-Infinity` / `NaN`)"""
+    return json.dumps(float(x))
+
+
+def _num(x):
+    """numbers inside cases: plain JSON numbers, or strings for the ones JSON cannot carry exactly ('inf', '-0.0', ...)"""
+    return float(x) if isinstance(x, str) else x
+
+
+def dec_val(v):
+    """a cell of a case's `data` as the python value handed to the library"""
+    if isinstance(v, dict):
+        return set(v['set'])
+    if isinstance(v, list):
+        return tuple(_num(x) for x in v)
+    if isinstance(v, bool):
+        return v
+    return _num(v)
+
+
+def norm_val(ptype_name, v):
+    """what the class's `_transform_data` makes of one decoded value (the harness's own rule, not the library's)"""
+    if ptype_name in ('IntervalPS', 'IntervalNumpyPS'):
+        if isinstance(v, tuple):
+            return (float(v[0]), float(v[-1]))
+        return (float(v), float(v))
+    if ptype_name == 'SetPS':
+        return set(v) if isinstance(v, (set, frozenset, list, tuple)) else {v}
+    return bool(v)
 
 
 def pval(ptype_name, v):
@@ -310,7 +818,7 @@ def mv_fields(K):
 
 def make_mv(c):
     from fcapy.mvcontext import MVContext, PS
-    data = [[set(v['set']) if isinstance(v, dict) else (tuple(v) if isinstance(v, list) else v) for v in row] for row in c['data']]
+    data = [[dec_val(v) for v in row] for row in c['data']]
     ptypes = {c['attrs'][j]: getattr(PS, c['types'][j]) for j in c['order']}
     return MVContext(data, pattern_types=ptypes, object_names=list(c['objs']), attribute_names=list(c['attrs']),
                      description=c.get('descr'))
@@ -362,6 +870,14 @@ def impl(c):
             return impl_concepts(c)
         if fmt in ('lat', 'mvlat'):
             return impl_lat(c)
+        if fmt == 'hctx':
+            return impl_hctx(c)
+        if fmt == 'hmv':
+            return impl_hmv(c)
+        if fmt in ('hlat', 'hmvlat'):
+            return impl_hlat(c)
+        if fmt in ('hfc', 'hpc'):
+            return impl_hconcept(c)
     except Exception as e:
         if c['stream'] == 'malformed':
             return {'setup_err': exc_name(e)}
@@ -370,10 +886,15 @@ def impl(c):
 
 
 def impl_ctx(c):
+    return ctx_roundtrip(make_ctx(c), c)
+
+
+def ctx_roundtrip(K, c, keep=None):
+    """write `K` in the format `c['fmt']` and read it back; `keep` collects (read-back object, frame) for later checks"""
     from fcapy.context import FormalContext
-    K = make_ctx(c)
     fmt = c['fmt']
     out = {}
+    df = None
     try:
         if fmt == 'cxt':
             out['text'] = K.write_cxt()
@@ -402,10 +923,14 @@ def impl_ctx(c):
                     os.unlink(path)
     except Exception as e:
         out['read'] = {'err': exc_name(e)}
+        if keep is not None:
+            keep.append((None, None))
         return out
     out['read'] = ctx_fields(K2)
     out['eq'] = lib_eq(K2, K)
     out['eq_rev'] = lib_eq(K, K2)
+    if keep is not None:
+        keep.append((K2, df))
     return out
 
 
@@ -482,12 +1007,371 @@ def impl_lat(c):
 
 
 # ------------------------------------------------------------------------------------------------
+# histories: implementation side
+# ------------------------------------------------------------------------------------------------
+def _quiet(f):
+    """a `use` step: whatever it returns or raises is not C07's business (other properties judge it)"""
+    try:
+        f()
+    except Exception:
+        pass
+
+
+def ctx_use(K, name):
+    if name == 'write_cxt':
+        _quiet(K.write_cxt)
+    elif name == 'write_json':
+        _quiet(K.write_json)
+    elif name == 'write_csv':
+        _quiet(K.write_csv)
+    elif name == 'to_pandas':
+        _quiet(K.to_pandas)
+    elif name == 'hash':
+        _quiet(lambda: hash(K))
+    elif name == 'hash_fixed':
+        _quiet(K.hash_fixed)
+    elif name == 'to_list':
+        _quiet(lambda: (K.data.to_list(), K.data.to_tuple()))
+    elif name == 'eq':
+        _quiet(lambda: (K == K, K != K))
+    elif name == 'T':
+        _quiet(lambda: (K.T.object_names, K.T.data.to_list()))
+    elif name == 'derive':
+        _quiet(lambda: (K.intention_i([0]), K.extension_i([0]), K.intention(list(K.object_names[:1])),
+                        K.extension(list(K.attribute_names[:1]))))
+    elif name == 'repr':
+        _quiet(lambda: (repr(K), K.n_objects, K.n_attributes, K.object_names, K.attribute_names, K.description, len(K)))
+    else:
+        raise ValueError(name)
+
+
+def impl_hctx(c):
+    from fcapy.context.bintable import init_bintable
+    K = make_ctx(c)
+    sh = dict(objs=list(c['objs']), attrs=list(c['attrs']), rows=[list(r) for r in c['rows']], descr=c.get('descr'))
+    checks, notes, kept = [], [], []
+    for st in c['steps']:
+        if st[0] == 'use':
+            ctx_use(K, st[1])
+        elif st[0] == 'check':
+            sub = dict(sh, fmt=st[1], be=c['be'], sep=',', wt='True', wf='False')
+            out = ctx_roundtrip(K, sub, kept)
+            out.update(fmt=st[1], shadow=dict(sh), obs=ctx_fields(K))
+            checks.append(out)
+        else:
+            before = dict(sh)
+            if st[0] == 'objs':
+                K.object_names = list(st[1])
+            elif st[0] == 'attrs':
+                K.attribute_names = list(st[1])
+            elif st[0] == 'descr':
+                K.description = st[1]
+            elif st[0] == 'table':
+                rows = [[bool(v) for v in r] for r in st[1]]
+                K.data.data = init_bintable(rows, c['be']).data if st[2] else rows
+            else:
+                raise ValueError(st[0])
+            sh = ctx_shadow_apply(sh, st)
+            if st[-1] is True:          # a hash-preserving edit: say whether the two contents really collide
+                a = make_ctx(dict(before, be=c['be'])).hash_fixed()
+                b = make_ctx(dict(sh, be=c['be'])).hash_fixed()
+                notes.append('h4:adler32 ' + ('collides' if a == b and before != sh else 'DIFFERS'))
+    # (H5) the objects read back earlier keep their content whatever happened to the source afterwards
+    for out, (K2, _df) in zip(checks, kept):
+        if K2 is not None:
+            out['later_read'] = ctx_fields(K2)
+    # ... and the source keeps its content when the last read-back object is changed
+    final = None
+    if kept and kept[-1][0] is not None:
+        K2 = kept[-1][0]
+        try:
+            K2.object_names = [x + '#' for x in K2.object_names]
+            K2.data.data = [[not v for v in r] for r in K2.data.to_list()]
+        except Exception as e:
+            notes.append('reverse-mutation raised ' + exc_name(e))
+        final = ctx_fields(K)
+    return dict(checks=checks, notes=notes, final_obs=final, final_shadow=dict(sh))
+
+
+def mv_use(K, name):
+    from fcapy.lattice import ConceptLattice
+    from fcapy.lattice.pattern_concept import PatternConcept
+    if name == 'write_json':
+        _quiet(K.write_json)
+    elif name == 'hash_fixed':
+        _quiet(K.hash_fixed)
+    elif name == 'hash':
+        _quiet(lambda: hash(K))
+    elif name == 'data':
+        _quiet(lambda: K.data)
+    elif name == 'eq':
+        _quiet(lambda: (K == K, K != K))
+    elif name == 'from_objects':
+        _quiet(lambda: PatternConcept.from_objects([0], K))
+    elif name == 'intention':
+        _quiet(lambda: (K.intention_i([0]), K.intention(list(K.object_names[:1]))))
+    elif name == 'extension':
+        _quiet(lambda: K.extension_i(K.intention_i([0])))
+    elif name == 'lattice':
+        _quiet(lambda: ConceptLattice.from_context(K))
+    elif name == 'to_numeric':
+        _quiet(K.to_numeric)
+    elif name == 'getitem':
+        _quiet(lambda: (K[0], K[0:1], K[0, 0]))
+    else:
+        raise ValueError(name)
+
+
+def mv_shadow_fields(sh):
+    return dict(objs=list(sh['objs']), attrs=list(sh['attrs']), descr=sh['descr'],
+                cols=[dict(name=nm, ptype=t, data=[pval(t, x) for x in col])
+                      for nm, t, col in zip(sh['ps_names'], sh['types'], sh['cols'])])
+
+
+def _fresh_mv(sh):
+    from fcapy.mvcontext import MVContext, PS
+    n = len(sh['objs'])
+    rows = [[col[i] for col in sh['cols']] for i in range(n)]
+    return MVContext(rows, pattern_types={a: getattr(PS, t) for a, t in zip(sh['attrs'], sh['types'])},
+                     object_names=list(sh['objs']), attribute_names=list(sh['attrs']), description=sh['descr'])
+
+
+def _cell_for(t, v):
+    """a normalised value in the form the class stores it (for in-place assignment into `ps.data`)"""
+    x = norm_val(t, dec_val(v))
+    return set(x) if t == 'SetPS' else x
+
+
+def mv_apply(K, sh, st):
+    """apply one mutation step to the MVContext `K` through its public API and to the shadow by the harness's own rules"""
+    types = sh['types']
+    sh = dict(sh, cols=[list(col) for col in sh['cols']], objs=list(sh['objs']))
+    if st[0] == 'ps_data':
+        K.pattern_structures[st[1]].data = [dec_val(v) for v in st[2]]
+        sh['cols'][st[1]] = [norm_val(types[st[1]], dec_val(v)) for v in st[2]]
+    elif st[0] == 'ps_cell':
+        K.pattern_structures[st[1]].data[st[2]] = _cell_for(types[st[1]], st[3])
+        sh['cols'][st[1]][st[2]] = norm_val(types[st[1]], dec_val(st[3]))
+    elif st[0] == 'ps_list':
+        K.pattern_structures = [type(ps)([dec_val(v) for v in col], name=ps.name) for ps, col in zip(K.pattern_structures, st[1])]
+        sh['cols'] = [[norm_val(t, dec_val(v)) for v in col] for t, col in zip(types, st[1])]
+    elif st[0] == 'ps_item':
+        pss = K.pattern_structures
+        pss[st[1]] = type(pss[st[1]])([dec_val(v) for v in st[2]], name=pss[st[1]].name)
+        sh['cols'][st[1]] = [norm_val(types[st[1]], dec_val(v)) for v in st[2]]
+    elif st[0] == 'ps_item_class':
+        from fcapy.mvcontext import PS
+        pss = K.pattern_structures
+        pss[st[1]] = getattr(PS, st[2])([dec_val(v) for v in st[3]], name=pss[st[1]].name)
+        sh['types'] = list(types)
+        sh['types'][st[1]] = st[2]
+        sh['cols'][st[1]] = [norm_val(st[2], dec_val(v)) for v in st[3]]
+    elif st[0] == 'attrs_outside':       # (outside the property's scope, see gen_histories: recorded, never judged)
+        K.attribute_names = list(st[1])
+        sh['attrs'] = list(st[1])
+    elif st[0] == 'objs':
+        K.object_names = list(st[1])
+        sh['objs'] = list(st[1])
+    elif st[0] == 'obj_item':
+        K.object_names[st[1]] = st[2]
+        sh['objs'][st[1]] = st[2]
+    elif st[0] == 'descr':
+        K.description = st[1]
+        sh['descr'] = st[1]
+    elif st[0] == 'alias_data':          # editing the table handed out by `K.data` is not an edit of the context
+        rows = K.data
+        rows[st[1]][st[2]] = _cell_for(types[st[2]], st[3])
+    else:
+        raise ValueError(st[0])
+    return sh
+
+
+def impl_hmv(c):
+    from fcapy.mvcontext import MVContext
+    K = make_mv(c)
+    types = list(c['types'])
+    n = len(c['objs'])
+    sh = dict(objs=list(c['objs']), attrs=list(c['attrs']), ps_names=list(c['attrs']), types=types, descr=c.get('descr'),
+              cols=[[norm_val(t, dec_val(c['data'][i][j])) for i in range(n)] for j, t in enumerate(types)])
+    checks, notes, kept = [], [], []
+    for st in c['steps']:
+        if st[0] == 'use':
+            mv_use(K, st[1])
+        elif st[0] == 'check':
+            out = {'shadow': mv_shadow_fields(sh)}
+            try:
+                out['text'] = K.write_json()
+                K2 = MVContext.read_json(json_data=out['text'])
+                out['read'] = mv_fields(K2)
+                out['eq'] = lib_eq(K2, K)
+                kept.append(K2)
+            except Exception as e:
+                out['read'] = {'err': exc_name(e)}
+                kept.append(None)
+            out['obs'] = mv_fields(K)
+            checks.append(out)
+        else:
+            before = sh
+            sh = mv_apply(K, sh, st)
+            if isinstance(st[-1], str) and st[-1].startswith('h4_'):
+                # a hash-preserving edit: say whether the two contents (on fresh objects) really differ and collide
+                a, b = _fresh_mv(before), _fresh_mv(sh)
+                differs = mv_shadow_fields(before) != mv_shadow_fields(sh)
+                if 'adler' in st[-1]:
+                    notes.append('h4:adler32 ' + ('collides' if differs and a.hash_fixed() == b.hash_fixed() else 'DIFFERS'))
+                else:       # hash() of the pattern structure that holds the edited column (a context with a SetPS is unhashable)
+                    j = st[1]
+                    try:
+                        same = hash(a.pattern_structures[j]) == hash(b.pattern_structures[j])
+                        notes.append('h4:hash() ' + ('collides' if differs and same else 'DIFFERS'))
+                    except TypeError:       # IntervalNumpyPS defines __eq__ only
+                        notes.append('h4:hash() unhashable class')
+    for out, K2 in zip(checks, kept):
+        if K2 is not None:
+            out['later_read'] = mv_fields(K2)
+    final = None
+    if kept and kept[-1] is not None:
+        K2 = kept[-1]
+        try:
+            K2.object_names = [x + '#' for x in K2.object_names]
+            ps = K2.pattern_structures[0]
+            ps.data = [set(x) if isinstance(x, set) else (tuple(float(y) for y in x) if hasattr(x, '__len__') else bool(x))
+                       for x in list(ps.data)[::-1]]
+            K2.pattern_structures[0].data[0] = K2.pattern_structures[0].data[-1]
+        except Exception as e:
+            notes.append('reverse-mutation raised ' + exc_name(e))
+        final = mv_fields(K)
+    return dict(checks=checks, notes=notes, final_obs=final, final_shadow=mv_shadow_fields(sh))
+
+
+def lat_use(L, name, K):
+    if name == 'write_json':
+        _quiet(lambda: L.write_json(list(K.object_names), list(K.attribute_names)))
+    elif name in ('children_dict', 'parents_dict', 'descendants_dict', 'ancestors_dict', 'measures', 'T'):
+        _quiet(lambda: getattr(L, name))
+    elif name == 'top_bottom':
+        _quiet(lambda: (L.top, L.bottom, L.tops, L.bottoms))
+    elif name == 'eq':
+        _quiet(lambda: L == L)
+    elif name == 'chains':
+        _quiet(L.get_chains)
+    else:
+        raise ValueError(name)
+
+
+def _set_measure(fields_dict, name, val):
+    ms = json.loads(fields_dict['measures'])
+    ms[name] = val
+    return dict(fields_dict, measures=json.dumps(ms))
+
+
+def impl_hlat(c):
+    from fcapy.lattice import ConceptLattice
+    is_f = c['fmt'] == 'hlat'
+    K = make_ctx(c) if is_f else make_mv(c)
+    fields = fc_fields if is_f else pc_fields
+    try:
+        L = ConceptLattice.from_context(K, is_monotone=True) if c.get('mono') else ConceptLattice.from_context(K)
+    except Exception as e:
+        return {'skip': 'from_context raised ' + exc_name(e)}
+    oo, ao = list(K.object_names), list(K.attribute_names)
+    sh = [fields(x) for x in L]
+    removed, checks, notes = [], [], []
+    for st in c['steps']:
+        if st[0] == 'use':
+            lat_use(L, st[1], K)
+        elif st[0] == 'remove':
+            cands = [i for i in range(len(L)) if i not in (L.top, L.bottom)]
+            if len(L) < 4 or not cands:
+                notes.append('remove skipped: too few concepts')
+                continue
+            i = cands[st[1] % len(cands)]
+            removed.append((L[i], sh[i]))
+            if st[2]:
+                del L[i]
+            else:
+                L.remove(L[i])
+            sh = sh[:i] + sh[i + 1:]
+        elif st[0] == 'add_back':
+            if not removed:
+                continue
+            x, f = removed.pop(st[1] % len(removed))
+            L.add(x, fill_up_cache=bool(st[2]))
+            sh = sh + [f]
+        elif st[0] == 'measure':
+            i = st[1] % len(L)
+            L[i].measures[st[2]] = st[3]
+            sh = sh[:i] + [_set_measure(sh[i], st[2], st[3])] + sh[i + 1:]
+        elif st[0] == 'check':
+            out = {'n': len(sh), 'shadow': list(sh)}
+            try:
+                out['text'] = L.write_json(oo, ao)
+                L2 = ConceptLattice.read_json(json_data=out['text'])
+                out['read'] = lat_fields(L2, fields)
+                out['eq'] = lib_eq(L2, L)
+                out['concepts_eq'] = [lib_eq(a, b) for a, b in zip(L2, L)]
+            except Exception as e:
+                out['read'] = {'err': exc_name(e)}
+            out['orig'] = lat_fields(L, fields)
+            checks.append(out)
+        else:
+            raise ValueError(st[0])
+    return dict(checks=checks, notes=notes, objs_order=oo, attrs_order=ao)
+
+
+def impl_hconcept(c):
+    from fcapy.lattice.formal_concept import FormalConcept
+    from fcapy.lattice.pattern_concept import PatternConcept
+    is_f = c['fmt'] == 'hfc'
+    K = make_ctx(c) if is_f else make_mv(c)
+    fields = fc_fields if is_f else pc_fields
+    try:
+        cs = mine(K, c['miner'])[:3]
+    except Exception as e:
+        return {'skip': 'miner raised ' + exc_name(e)}
+    oo, ao = list(K.object_names), list(K.attribute_names)
+    res = []
+    for x in cs:
+        sh = fields(x)
+        for st in c['steps']:
+            if st[0] == 'measure':
+                x.measures[st[2]] = st[3]
+                sh = _set_measure(sh, st[2], st[3])
+            elif st[0] == 'measures':
+                x.measures = dict(st[1])
+                sh = dict(sh, measures=json.dumps(st[1]))
+            elif st[0] == 'check':
+                r = {'orig': dict(sh)}
+                try:
+                    if is_f:
+                        r['text'] = x.write_json(oo, ao)
+                        r['read_dict'] = fc_fields(FormalConcept.from_dict(x.to_dict(oo, ao)))
+                        y = FormalConcept.read_json(json_data=r['text'])
+                    else:
+                        r['text'] = x.write_json()
+                        r['read_dict'] = pc_fields(PatternConcept.from_dict(x.to_dict(json_ready=False), json_ready=False))
+                        y = PatternConcept.read_json(json_data=r['text'])
+                    r['read'] = fields(y)
+                    r['eq'] = lib_eq(y, x)
+                    r['hash_eq'] = hash(y) == hash(x)
+                except Exception as e:
+                    r['read'] = {'err': exc_name(e)}
+                r['obs'] = fields(x)
+                res.append(r)
+            else:
+                raise ValueError(st[0])
+    return {'concepts': res, 'objs_order': oo, 'attrs_order': ao}
+
+
+# ------------------------------------------------------------------------------------------------
 # driver requests
 # ------------------------------------------------------------------------------------------------
 def requests(c, io):
     fmt = c['fmt']
     if 'setup_err' in io or 'harness_exc' in io or 'skip' in io:
         return []
+    if fmt.startswith('h'):
+        return hist_requests(c, io)
     if fmt in ('cxt', 'csv', 'json', 'pandas'):
         r = dict(op='C07.' + fmt, objs=c['objs'], attrs=c['attrs'], rows=c['rows'], descr=c.get('descr'),
                  impl_text=io.get('text'))
@@ -548,8 +1432,10 @@ def lat_norm(x):
 
 def judge(c, io, rep):
     fmt = c['fmt']
-    if c['stream'] == 'malformed' or 'skip' in io:
+    if c['stream'] in ('malformed', 'outside-scope') or 'skip' in io:
         return dict(ok=True)
+    if fmt.startswith('h'):
+        return judge_hist(c, io, rep)
     if fmt in ('cxt', 'csv', 'json', 'pandas'):
         return judge_ctx(c, io, rep[0])
     if fmt == 'mv':
@@ -624,7 +1510,7 @@ def judge_concept(c, x, r, io):
     return dict(ok=True)
 
 
-def judge_lat(c, io, r):
+def judge_lat(c, io, r, hist=False):
     orig = lat_norm(io['orig'])
     orig = dict(orig, concepts=[canon_concept(x, io['objs_order'], io['attrs_order']) for x in orig['concepts']])
     if io['n'] < 3:
@@ -640,6 +1526,14 @@ def judge_lat(c, io, r):
         return ('err' not in b and len(a['concepts']) == len(b['concepts'])
                 and all(concept_same(x, y) for x, y in zip(a['concepts'], b['concepts']))
                 and a['children'] == b['children'] and a['top'] == b['top'] and a['bottom'] == b['bottom'])
+    def prop_ok():
+        return not (back is None or not same(orig, lat_norm(back)) or io.get('eq') is not True
+                    or not all(e is True for e in io.get('concepts_eq', [False])))
+    if hist and not prop_ok():
+        # after a history the lattice's own cover relation / top / bottom are part of what is judged: the reader
+        # recomputes them from the concepts, so a stale `children_dict` shows as a read-back that differs from L
+        return bad('property', f'lattice round trip after a history: read-back {back} (==: {io.get("eq")}, concept ==: '
+                               f'{io.get("concepts_eq")}) for the lattice {orig}')
     if not same(orig, lat_norm(r['read'])) or r['read'] != r.get('read_text'):
         return bad('harness', f'model read(write L) differs from L: {r["read"]} vs {orig}')
     if back is None or not same(orig, lat_norm(back)) or io.get('eq') is not True or not all(e is True for e in io.get('concepts_eq', [False])):
@@ -653,10 +1547,83 @@ def judge_lat(c, io, r):
 
 
 # ------------------------------------------------------------------------------------------------
+# histories: requests and judging (each `check` of a history is judged like a one-shot case whose original is the
+# CURRENT content, as tracked by the harness)
+# ------------------------------------------------------------------------------------------------
+def hist_requests(c, io):
+    fmt = c['fmt']
+    if fmt == 'hctx':
+        out = []
+        for ch in io['checks']:
+            s = ch['shadow']
+            r = dict(op='C07.' + ch['fmt'], objs=s['objs'], attrs=s['attrs'], rows=s['rows'], descr=s['descr'],
+                     impl_text=ch.get('text'))
+            if ch['fmt'] == 'csv':
+                r.update(sep=',', wt='True', wf='False')
+            out.append(r)
+        return out
+    if fmt == 'hmv':
+        return [dict(op='C07.mv', impl_text=ch.get('text'), **ch['shadow']) for ch in io['checks']]
+    if fmt in ('hlat', 'hmvlat'):
+        return [dict(op='C07.lat', kind='f' if fmt == 'hlat' else 'p', objs_order=io['objs_order'], attrs_order=io['attrs_order'],
+                     impl_text=ch.get('text'), **ch['orig']) for ch in io['checks']]
+    if fmt == 'hfc':
+        return [dict(op='C07.fc', c=x['orig'], objs_order=io['objs_order'], attrs_order=io['attrs_order'],
+                     impl_text=x.get('text')) for x in io['concepts']]
+    if fmt == 'hpc':
+        return [dict(op='C07.pc', c=x['orig'], impl_text=x.get('text')) for x in io['concepts']]
+    raise ValueError(fmt)
+
+
+def _where(c, k):
+    return f'history {c["steps"]}, check #{k}: '
+
+
+def judge_hist(c, io, rep):
+    fmt = c['fmt']
+    if fmt in ('hfc', 'hpc'):
+        for k, (x, r) in enumerate(zip(io['concepts'], rep)):
+            if json.loads(x['obs']['measures']) != json.loads(x['orig']['measures']) or strip_measures(x['obs']) != strip_measures(x['orig']):
+                return bad('property', _where(c, k) + f'the concept reads {x["obs"]} through its public fields, the history made it {x["orig"]}')
+            v = judge_concept(c, x, r, io)
+            if not v['ok']:
+                return dict(v, detail=(_where(c, k) + v['detail'])[:900])
+        return dict(ok=True)
+    for k, (ch, r) in enumerate(zip(io['checks'], rep)):
+        if fmt == 'hctx':
+            s = ch['shadow']
+            if ch['obs'] != s:
+                return bad('property', _where(c, k) + f'the context reads {ch["obs"]} through its public getters, the history made it {s}')
+            v = judge_ctx(dict(s, fmt=ch['fmt'], be=c['be']), ch, r)
+        elif fmt == 'hmv':
+            s = ch['shadow']
+            if ch['obs'] != s:
+                return bad('property', _where(c, k) + f'the context reads {ch["obs"]} through its public getters, the history made it {s}')
+            v = judge_mv(c, dict(ch, orig=s), r)
+        else:
+            oo, ao = io['objs_order'], io['attrs_order']
+            obs = [canon_concept(x, oo, ao) for x in ch['orig']['concepts']]
+            want = [canon_concept(x, oo, ao) for x in ch['shadow']]
+            if len(obs) != len(want) or any(strip_measures(a) != strip_measures(b) or json.loads(a['measures']) != json.loads(b['measures'])
+                                            for a, b in zip(obs, want)):
+                return bad('property', _where(c, k) + f'the lattice holds the concepts {obs}, the history made them {want}')
+            v = judge_lat(c, dict(ch, objs_order=oo, attrs_order=ao), r, hist=True)
+        if not v['ok']:
+            return dict(v, detail=(_where(c, k) + v['detail'])[:900])
+        if 'later_read' in ch and ch['later_read'] != ch.get('read'):
+            return bad('property', _where(c, k) + f'the object read back was {ch.get("read")}; after later changes of the SOURCE '
+                                                  f'it reads {ch["later_read"]}')
+    if io.get('final_obs') is not None and io['final_obs'] != io['final_shadow']:
+        return bad('property', f'history {c["steps"]}: after changing the object READ BACK last, the source reads {io["final_obs"]} '
+                               f'instead of {io["final_shadow"]}')
+    return dict(ok=True)
+
+
+# ------------------------------------------------------------------------------------------------
 # bookkeeping
 # ------------------------------------------------------------------------------------------------
 def nontrivial(c):
-    if c['stream'] == 'malformed':
+    if c['stream'] in ('malformed', 'outside-scope'):
         return False
     if 'rows' in c:
         return G.is_mixed(c['rows'])
@@ -687,6 +1654,22 @@ def branch(c, io, rep):
     if 'skip' in io:
         out.append('skipped:' + io['skip'])
         return out
+    if c['fmt'].startswith('h'):
+        for st in c['steps']:
+            if st[0] == 'use':
+                out.append('hist-use:' + c['fmt'] + ':' + st[1])
+            elif st[0] == 'check':
+                out.append('hist-check:' + c['fmt'] + (':' + st[1] if len(st) > 1 else ''))
+            else:
+                tag = st[-1] if isinstance(st[-1], str) and st[-1].startswith('h4_') else st[0]
+                out.append('hist-route:' + c['fmt'] + ':' + tag + (':native' if st[0] == 'table' and st[2] else '')
+                           + (':h4' if st[0] in ('table', 'objs', 'attrs') and st[-1] is True else ''))
+        out.extend('hist-note:' + x for x in io.get('notes', []))
+        if c['stream'] == 'outside-scope' and io.get('checks'):
+            ch = io['checks'][-1]
+            out.append('outside:mv-attribute-rename:' + ('still-round-trips' if ch.get('read') == ch['shadow'] and ch.get('eq') is True
+                                                         else 'outside(ps.name stale; ==: %s)' % (ch.get('eq'),)))
+        return out
     if c['fmt'] in ('lat', 'mvlat'):
         out.append('lattice:' + ('<3 concepts' if io.get('n', 0) < 3 else '>=3 concepts'))
         if io.get('lat_mono') != io.get('read_lat_mono') and 'read_lat_mono' in io:
@@ -708,6 +1691,13 @@ def signature(c, io, rep, v):
 
 
 def shrink(c):
+    if c['fmt'].startswith('h'):
+        steps = c['steps']
+        for i in range(len(steps)):
+            rest = steps[:i] + steps[i + 1:]
+            if any(st[0] == 'check' for st in rest):
+                yield dict(c, steps=rest)
+        return
     if 'rows' in c and c['fmt'] in ('cxt', 'csv', 'json', 'pandas', 'lat', 'fc'):
         rows = c['rows']
         n, m = len(rows), len(rows[0])
